@@ -28,6 +28,7 @@ type PState struct {
 	tuple map[ssa.Value][]Tri      // multi-result call -> facts about its components
 	fcell map[fieldKey]ssa.Value   // (local literal, field) -> canonical value last stored
 	Flags uint64                   // rule-defined event bits (never pruned)
+	Trace string                   // rule-defined event trace (part of the state identity)
 }
 
 type fieldKey struct {
@@ -41,7 +42,7 @@ func newPState() *PState {
 
 func (s *PState) clone() *PState {
 	n := &PState{env: make(map[ssa.Value]Tri, len(s.env)), alias: make(map[ssa.Value]ssa.Value, len(s.alias)),
-		cell: make(map[*ssa.Alloc]ssa.Value, len(s.cell)), tuple: make(map[ssa.Value][]Tri, len(s.tuple)), fcell: make(map[fieldKey]ssa.Value, len(s.fcell)), Flags: s.Flags}
+		cell: make(map[*ssa.Alloc]ssa.Value, len(s.cell)), tuple: make(map[ssa.Value][]Tri, len(s.tuple)), fcell: make(map[fieldKey]ssa.Value, len(s.fcell)), Flags: s.Flags, Trace: s.Trace}
 	for k, v := range s.fcell {
 		n.fcell[k] = v
 	}
@@ -105,12 +106,24 @@ func (s *PState) Eval(v ssa.Value) Tri {
 		if x.Op == token.NOT {
 			return -s.Eval(x.X)
 		}
+		if x.Op == token.MUL {
+			// a package-level sentinel error (io.EOF, segment.ErrClosed, ...) is never nil
+			if g, ok := x.X.(*ssa.Global); ok && isErrorType(x.Type()) && g.Pkg != nil {
+				return TriYes
+			}
+		}
 	case *ssa.BinOp:
 		if t, _, _ := s.evalCompare(x); t != TriUnknown {
 			return t
 		}
 	case *ssa.Call:
 		if isNonNilProducer(x.Common()) {
+			return TriYes
+		}
+		if t, ok := s.env[v]; ok && t != TriUnknown {
+			return t
+		}
+		if alwaysNonNil(x.Common().StaticCallee()) {
 			return TriYes
 		}
 	}
@@ -187,6 +200,7 @@ func isNonNilProducer(cc *ssa.CallCommon) bool {
 type Outcome struct {
 	Results []Tri
 	Flags   uint64
+	Trace   string // appended to the caller's trace
 	Replace bool // Flags replace the caller's flags instead of being OR-ed in
 }
 
@@ -204,6 +218,11 @@ type Explorer struct {
 	OnReturn func(ret *ssa.Return, st *PState)
 	// OnEdge is called when a CFG edge is taken.
 	OnEdge func(from, to *ssa.BasicBlock, st *PState)
+	// OnPhi is called for each phi assignment on an edge with the canonical incoming value
+	// (src == phi means: the value flows around unchanged).
+	OnPhi func(phi *ssa.Phi, src ssa.Value, from *ssa.BasicBlock, st *PState)
+	// EdgeFilter, when set, may cut the path on an edge by returning false.
+	EdgeFilter func(from, to *ssa.BasicBlock, st *PState) bool
 
 	// Keep lists values whose facts must survive liveness pruning (they are queried by the rule).
 	Keep map[ssa.Value]bool
@@ -316,7 +335,7 @@ func (e *Explorer) key(b *ssa.BasicBlock, idx int, st *PState) string {
 		parts = append(parts, s)
 	}
 	sort.Strings(parts)
-	return strconv.Itoa(b.Index) + "." + strconv.Itoa(idx) + "|" + strconv.FormatUint(st.Flags, 16) + "|" + strings.Join(parts, ";")
+	return strconv.Itoa(b.Index) + "." + strconv.Itoa(idx) + "|" + strconv.FormatUint(st.Flags, 16) + "|" + st.Trace + "|" + strings.Join(parts, ";")
 }
 
 // liveAt: is value v live on entry to block b? For instruction-defined values this is SSA
@@ -544,6 +563,7 @@ func (e *Explorer) execBlock(b *ssa.BasicBlock, start int, st *PState) {
 						} else {
 							ns.Flags |= o.Flags
 						}
+						ns.Trace += o.Trace
 						if x.Common().Signature().Results().Len() == 1 {
 							if len(o.Results) > 0 && o.Results[0] != TriUnknown {
 								ns.env[x] = o.Results[0]
@@ -644,6 +664,11 @@ func (e *Explorer) edge(from, to *ssa.BasicBlock, st *PState) {
 			as = append(as, asg{phi, st.Canon(phi.Edges[pi])})
 		}
 	}
+	if e.OnPhi != nil {
+		for _, a := range as {
+			e.OnPhi(a.phi, a.src, from, ns)
+		}
+	}
 	for _, a := range as {
 		e.redefine(ns, a.phi)
 	}
@@ -655,6 +680,9 @@ func (e *Explorer) edge(from, to *ssa.BasicBlock, st *PState) {
 	if e.OnEdge != nil {
 		e.OnEdge(from, to, ns)
 	}
+	if e.EdgeFilter != nil && !e.EdgeFilter(from, to, ns) {
+		return
+	}
 	e.push(to, 0, ns)
 }
 
@@ -664,10 +692,11 @@ func (e *Explorer) edge(from, to *ssa.BasicBlock, st *PState) {
 type RetOutcome struct {
 	Results []Tri
 	Flags   uint64
+	Trace   string
 }
 
 func (r RetOutcome) key() string {
-	s := strconv.FormatUint(r.Flags, 16) + ":"
+	s := strconv.FormatUint(r.Flags, 16) + ":" + r.Trace + ":"
 	for _, t := range r.Results {
 		s += strconv.Itoa(int(t)) + ","
 	}
@@ -686,6 +715,10 @@ type Summarizer struct {
 	Follow func(fn *ssa.Function) bool
 	// Combine merges the caller's flags with the flags of one callee outcome (default: OR).
 	Combine func(caller, callee uint64) uint64
+	// EdgeFilter is installed on every explorer created by the summarizer.
+	EdgeFilter func(from, to *ssa.BasicBlock, st *PState) bool
+	// ClearFlagsOnReturn drops the (function-local) flags from return outcomes.
+	ClearFlagsOnReturn bool
 
 	memo     map[*ssa.Function][]RetOutcome
 	inFlight map[*ssa.Function]bool
@@ -708,7 +741,10 @@ func (s *Summarizer) Summary(fn *ssa.Function) []RetOutcome {
 	outs := map[string]RetOutcome{}
 	ex := s.Explorer(fn)
 	ex.OnReturn = func(ret *ssa.Return, st *PState) {
-		ro := RetOutcome{Flags: st.Flags}
+		ro := RetOutcome{Flags: st.Flags, Trace: st.Trace}
+		if s.ClearFlagsOnReturn {
+			ro.Flags = 0
+		}
 		for _, r := range ret.Results {
 			ro.Results = append(ro.Results, st.Eval(r))
 		}
@@ -758,7 +794,7 @@ func (s *Summarizer) Explorer(fn *ssa.Function) *Explorer {
 		}
 		var outs []Outcome
 		for _, r := range sum {
-			o := Outcome{Results: r.Results, Flags: r.Flags}
+			o := Outcome{Results: r.Results, Flags: r.Flags, Trace: r.Trace}
 			if s.Combine != nil {
 				o.Flags = s.Combine(st.Flags, r.Flags)
 				o.Replace = true
@@ -770,6 +806,7 @@ func (s *Summarizer) Explorer(fn *ssa.Function) *Explorer {
 	if s.OnInstr != nil {
 		ex.OnInstr = func(in ssa.Instruction, st *PState) bool { return s.OnInstr(fn, in, st) }
 	}
+	ex.EdgeFilter = s.EdgeFilter
 	return ex
 }
 
